@@ -84,7 +84,7 @@ def main():
         import types
 
         mod = types.ModuleType("dbfs_pipe")
-        src = "import dds\nX = 3\ndef leaf():\n    return 'leaf-%d' % X\ndef root():\n    return dds.keep('/e2e/leaf', leaf) + '|root'\n"
+        src = "import dds\nX = 3\ndef first():\n    return 'first'\ndef leaf():\n    return 'leaf-%d' % X\ndef root():\n    a = dds.keep('/e2e/first', first)\n    return dds.keep('/e2e/leaf', leaf) + '|root'\n"
         import os, tempfile, importlib
 
         d = tempfile.mkdtemp(prefix="dds_b_dbfs_")
